@@ -1257,8 +1257,8 @@ def convert_stmts(fn):
     for s in convert_pre(fn):
         src = ast.unparse(s)
         c = status_call(s)
-        if src == 'if not self._started:\n    self.startTestRun()':
-            out.append(('ensureStarted',))
+        if src == 'if not self._started:\n    self._implied_start()':
+            out.append(('ensureStarted',))       # (`self.startTestRun()` here would wipe the time() / tags() given before: not this)
         elif src == 'test_id = test.id()':
             out.append(('bindTestId',))
         elif src == 'now = self._now()':
@@ -1302,6 +1302,64 @@ def e2s_start_stmts(fn):
     return out
 
 
+def find_or_none(tree, cls, name):
+    try:
+        return find(tree, cls, name)
+    except ValueError:
+        return None
+
+
+def start_test_stmts(fn):
+    """`ExtendedToStreamDecorator.startTest` -> [XStmt]"""
+    out = []
+    for st in body_of(fn):
+        out.append({'if not self._started:\n    self._implied_start()': ('ensureStarted',),
+                    "self.status(test_id=test.id(), test_status='inprogress', timestamp=self._now())": ('emitInprogress',),
+                    'self._tags = TagContext(self._tags)': ('pushTags',)}.get(ast.unparse(st), OTHER))
+    if [a.arg for a in fn.args.args] != ['self', 'test']:
+        out.append(OTHER)
+    return out
+
+
+def e2s_init_stmts(fn):
+    """`ExtendedToStreamDecorator.__init__` -> [XStmt]: what exists before any run is started"""
+    out = []
+    if [a.arg for a in fn.args.args] != ['self', 'decorated']:
+        out.append(OTHER)
+    for st in body_of(fn):
+        out.append({'super().__init__([decorated])': ('superInit',), 'TestControl.__init__(self)': ('controlInit',),
+                    'self._started = False': ('clearStarted',), 'self._tags = TagContext()': ('resetTags',),
+                    'self.__now = None': ('resetClock',)}.get(ast.unparse(st), OTHER))
+    return out
+
+
+def implied_start_stmts(fn):
+    """`ExtendedToStreamDecorator._implied_start` -> [XStmt]: save tags and clock, startTestRun(), put them back"""
+    if fn is None:
+        return [OTHER]
+    body = body_of(fn)
+    out = []
+    saved = None
+    for st in body:
+        src = ast.unparse(st)
+        if isinstance(st, ast.Assign) and len(st.targets) == 1 and isinstance(st.targets[0], ast.Tuple) and len(st.targets[0].elts) == 2 \
+                and all(isinstance(x, ast.Name) for x in st.targets[0].elts) and isinstance(st.value, ast.Tuple) and [ast.unparse(x) for x in st.value.elts] == ['self._tags', 'self.__now'] \
+                and st.targets[0].elts[0].id != st.targets[0].elts[1].id and saved is None:
+            saved = [x.id for x in st.targets[0].elts]
+            out.append(('saveState',))
+        elif src == 'self.startTestRun()':
+            out.append(('callStartTestRun',))
+        elif saved is not None and isinstance(st, ast.Assign) and len(st.targets) == 1 and isinstance(st.targets[0], ast.Tuple) \
+                and [ast.unparse(x) for x in st.targets[0].elts] == ['self._tags', 'self.__now'] and isinstance(st.value, ast.Tuple) \
+                and [ast.unparse(x) for x in st.value.elts] == saved:
+            out.append(('restoreState',))
+        else:
+            out.append(OTHER)
+    if [a.arg for a in fn.args.args] != ['self']:
+        out.append(OTHER)
+    return out
+
+
 def convert_src(tree):
     return '''import TTV.Model.ConvertSrc
 /-! GENERATED by harness/pystream.py from testtools/testresult/real.py on every run - do not edit.
@@ -1315,9 +1373,18 @@ def convert : List VStmt :=
 
 def startTestRun : List XStmt := %s
 
+def init : List XStmt := %s
+
+def impliedStart : List XStmt := %s
+
+def startTest : List XStmt := %s
+
 end TTV.Generated.ConvertSrc
 ''' % (lean(convert_stmts(find(tree, 'ExtendedToStreamDecorator', '_convert'))),
-       lean(e2s_start_stmts(find(tree, 'ExtendedToStreamDecorator', 'startTestRun'))))
+       lean(e2s_start_stmts(find(tree, 'ExtendedToStreamDecorator', 'startTestRun'))),
+       lean(e2s_init_stmts(find(tree, 'ExtendedToStreamDecorator', '__init__'))),
+       lean(implied_start_stmts(find_or_none(tree, 'ExtendedToStreamDecorator', '_implied_start'))),
+       lean(start_test_stmts(find(tree, 'ExtendedToStreamDecorator', 'startTest'))))
 
 
 def generate_convert(repo):
